@@ -222,7 +222,7 @@ def run_part(ctx):
     # evidence
     per = {b["parser"]: {"family": b["family"], "tokens": len(b["alphabet"]), "maxlen": b["maxlen"], "inputs": b["total"]}
            for b in bounds}
-    kinds = [{k: p[k] for k in ("parser", "site", "line", "msg", "count", "first")} for p in stats.get("PanicKinds", [])]
+    kinds = [{k: p[k] for k in ("parser", "site", "line", "msg", "count", "first")} for p in (stats.get("PanicKinds") or [])]
     sample_trace = base[:7]
     summary = {
         "parsers": len(bounds), "enumerated_calls": total, "random_calls": nrand * len(bounds),
